@@ -26,7 +26,7 @@ def EXHAUSTIVE(tier):
 
 
 def plan(tier):
-    return {"n_random": 1000 if tier == "quick" else 20000, "item_draws": 1 if tier == "quick" else 5, "time_s": 500 if tier == "quick" else 1750}
+    return {"n_random": 3000 if tier == "quick" else 20000, "item_draws": 3 if tier == "quick" else 5, "time_s": 500 if tier == "quick" else 1750}
 
 
 def _norm_orbit(sg, letter):
